@@ -51,7 +51,7 @@ OInit == [cfg |-> [ka |-> 0], opened |-> FALSE, now |-> 0,
           accFirst |-> Empty,
           wireErrs |-> 0, loopErrs |-> 0, excLogs |-> 0, goaway |-> 0,
           cwin |-> 65535, initwin |-> 65535, swin |-> Empty, illegal |-> FALSE, unusual |-> {},
-          held |-> 0, maxHeld |-> 0, spins |-> 0, fed |-> 0, stalled |-> Empty,
+          held |-> 0, maxHeld |-> 0, spins |-> 0, fed |-> 0, stalled |-> Empty, lossWrite |-> FALSE,
           lastByteAt |-> 0, nstarted |-> 0, startOrder |-> <<>>,
           endOrder |-> <<>>, n |-> 0]
 
@@ -185,7 +185,11 @@ OStep(o0, ev) ==
                     [o EXCEPT !.illegal = @ \/ ~ev.legal,
                               !.unusual = IF ev.unusual # "" THEN @ \cup {ev.unusual} ELSE @]
               [] OTHER -> o
-      [] ev.e \in {"app_start", "app_call", "app_recv", "app_ret", "app_done"} -> OStepApp(o, ev)
+      [] ev.e \in {"app_start", "app_call", "app_recv", "app_ret", "app_done"} ->
+            \* (lossWrite: an application tried to send after the peer had reset or writing had begun to fail -
+            \*  that write fails, which is one of the ways the server learns that the peer is gone)
+            LET o1 == OStepApp(o, ev) IN
+            IF ev.e = "app_call" /\ ev.op = "send" /\ (o.reset \/ o.tfail) THEN [o1 EXCEPT !.lossWrite = TRUE] ELSE o1
       [] ev.e = "wire" -> OStepWire(o, ev)
       [] ev.e = "t_close" -> [o EXCEPT !.closedAt = IF @ < 0 THEN ev.now ELSE @]
       [] ev.e = "t_eof" -> [o EXCEPT !.eofAt = IF @ < 0 THEN ev.now ELSE @]
@@ -225,7 +229,13 @@ Reusable(o, a) ==
 
 (* between the arrival of a complete request head and the end of its response *)
 \* (a stream the client has reset is over, whatever its application still does)
-BusyReq(o, a) == LET r == Req(o, a) IN r.known /\ r.head /\ ~r.bad /\ ~r.rst /\ Wire(o, a).ends = 0
+\* (a response without a body - HEAD, 204, 304 - ends on the wire with its head; the exchange is over when the
+\*  application has handed over its last message, which the server cannot anticipate)
+BusyReq(o, a) == LET r == Req(o, a) s == App(o, a) IN
+                 /\ r.known /\ r.head /\ ~r.bad /\ ~r.rst
+                 /\ \/ Wire(o, a).ends = 0
+                    \/ (s.started > 0 /\ s.rstart /\ ~s.final /\ s.done = "" /\ s.sendExc = 0
+                        /\ SuppressBody(r.method, s.status))
 Busy(o) == \E a \in DOMAIN o.reqs : BusyReq(o, a)
 
 (* HTTP/1: a pipelined request whose head has arrived but which has not been served *)
